@@ -48,6 +48,15 @@ impl CaseIo for Case {
 pub fn judge(c: &Case, st: &mut Stats) -> Verdict {
     st.eval();
     let distinct = c.a4 != c.b4 && c.a6 != c.b6 && c.sp != c.dp && c.unix_seed[0] != c.unix_seed[1];
+    if c.a4 == [0; 4] && c.b4 == [0; 4] && c.sp == 0 && c.dp == 0 {
+        st.class("ipv4-all-zero-block");
+    }
+    if c.a6 == [0; 8] && c.b6 == [0; 8] && c.sp == 0 && c.dp == 0 {
+        st.class("ipv6-all-zero-block");
+    }
+    if c.scope[0] != 0 && c.a6.iter().any(|g| *g as u32 == c.scope[0]) {
+        st.class("scope-id-equals-a-group");
+    }
     if distinct {
         st.nontrivial(c.digest());
         st.class("all-components-distinct");
@@ -123,11 +132,8 @@ pub fn judge(c: &Case, st: &mut Stats) -> Verdict {
     // Unix
     let mut us = [0u8; 108];
     let mut ud = [0u8; 108];
-    us.copy_from_slice(&fill(c.unix_seed[0] | 1, 108));
-    ud.copy_from_slice(&fill(c.unix_seed[1].wrapping_add(2) | 1, 108));
-    if c.unix_seed[0] == c.unix_seed[1] {
-        ud = us;
-    }
+    us.copy_from_slice(&unix_path(c.unix_seed[0]));
+    ud.copy_from_slice(&unix_path(c.unix_seed[1]));
     let u = v2::Unix::new(us, ud);
     if u.source != us || u.destination != ud {
         return fail("v2::Unix::new", "source, destination as given".into(), "swapped or altered".into());
@@ -159,7 +165,67 @@ pub fn judge(c: &Case, st: &mut Stats) -> Verdict {
     Ok(())
 }
 
+/// Unix path bytes by seed class: filler content (random / all zero / all 0xFF / ASCII, see engine::fill), or - for
+/// seeds that are 2 mod 8 - a short NUL-terminated path followed by non-zero bytes behind the terminator.
+pub fn unix_path(seed: u32) -> Vec<u8> {
+    let mut p = fill(seed, 108);
+    if seed % 8 == 2 && seed < 0xffff_fff0 {
+        let n = 1 + (seed as usize / 8) % 40;
+        for (i, b) in p.iter_mut().enumerate() {
+            if i < n {
+                *b = b'a' + (*b % 26);
+            } else if i == n {
+                *b = 0;
+            } else if *b == 0 {
+                *b = 1;
+            }
+        }
+    }
+    p
+}
+
+const SPECIAL_V6: [[u16; 8]; 12] = [
+    [0; 8],
+    [0, 0, 0, 0, 0, 0, 0, 1],
+    [0xffff; 8],
+    [0, 0, 0, 0, 0, 0xffff, 0xc000, 0x0201],
+    [0, 0, 0, 0, 0, 0xffff, 0, 0],
+    [0, 0, 0, 0, 0, 0, 0xc000, 0x0201],
+    [0xfe80, 0, 0, 0, 0, 0, 0, 1],
+    [0xfe80, 4, 0, 0, 0, 0, 0, 1],
+    [0xff02, 7, 0, 0, 0, 0, 0, 0xfb],
+    [0xff01, 0, 0, 0, 0, 0, 0, 1],
+    [0x2001, 0xdb8, 0, 0, 0, 0, 0, 2],
+    [0x64, 0xff9b, 0, 0, 0, 0, 0xc000, 0x0201],
+];
+const SPECIAL_V4: [[u8; 4]; 7] = [[0, 0, 0, 0], [127, 0, 0, 1], [255, 255, 255, 255], [192, 0, 2, 1], [169, 254, 0, 1], [224, 0, 0, 251], [10, 0, 0, 0]];
+
 pub fn gen_case(t: &mut Tape) -> Case {
+    // one case in six is drawn from special values only (unspecified / loopback / broadcast / mapped / link-local
+    // with a zone-like second group, ports 0 / 65535, scope ids equal to a group of the address, all components
+    // equal): role swaps are invisible there, but value-dependent rewrites are not
+    if t.chance(1, 6) {
+        let a6 = *t.pick(&SPECIAL_V6);
+        let b6 = if t.chance(1, 3) { a6 } else { *t.pick(&SPECIAL_V6) };
+        let a4 = *t.pick(&SPECIAL_V4);
+        let b4 = if t.chance(1, 3) { a4 } else { *t.pick(&SPECIAL_V4) };
+        let sp = *t.pick(&[0u16, 0, 1, 65535, 80]);
+        let dp = if t.coin() { sp } else { *t.pick(&[0u16, 1, 65535, 443]) };
+        let sc = |t: &mut Tape, g: &[u16; 8]| -> u32 {
+            match t.below(5) {
+                0 => 0,
+                1 => g[1] as u32,
+                2 => g[7] as u32,
+                3 => t.below(16),
+                _ => t.u32(),
+            }
+        };
+        let scope = [sc(t, &a6), sc(t, &b6)];
+        let flow = [if t.coin() { 0 } else { t.u32() }, if t.coin() { 0 } else { t.u32() }];
+        let us = crate::engine::gen_seed(t);
+        let ud = if t.chance(1, 3) { us } else { crate::engine::gen_seed(t) };
+        return Case { a4, b4, a6, b6, sp, dp, flow, scope, unix_seed: [us, ud] };
+    }
     let mut c = Case {
         a4: crate::gen::gen_v4(t),
         b4: crate::gen::gen_v4(t),
@@ -169,8 +235,17 @@ pub fn gen_case(t: &mut Tape) -> Case {
         dp: crate::gen::gen_port(t),
         flow: [t.u32(), t.u32()],
         scope: [t.u32(), t.u32()],
-        unix_seed: [t.u32(), t.u32()],
+        unix_seed: [if t.chance(1, 4) { t.u32() & !7 | 2 } else { crate::engine::gen_seed(t) }, if t.chance(1, 4) { t.u32() & !7 | 2 } else { crate::engine::gen_seed(t) }],
     };
+    // zone-like scope ids: equal to one of the address's own groups
+    if t.chance(1, 5) {
+        c.scope[0] = c.a6[t.below(8) as usize] as u32;
+        c.scope[1] = c.b6[t.below(8) as usize] as u32;
+        if t.coin() {
+            c.a6[0] = *t.pick(&[0xfe80u16, 0xff02, 0xff01, 0xfec0]);
+            c.scope[0] = c.a6[1] as u32;
+        }
+    }
     // pairwise distinct with high probability: swapped roles are invisible otherwise
     if !t.chance(1, 20) {
         if c.a4 == c.b4 {
@@ -196,5 +271,38 @@ pub fn run(r: &mut Runner) -> &'static str {
         .into();
     let n = r.n(300_000, 5_000_000);
     r.random("c19.constructors", n, 64, &gen_case, &judge);
+    // cross product of special values
+    let work = |shard: usize, nshards: usize, st: &mut Stats, _stop: &std::sync::atomic::AtomicBool| -> Option<(Case, Fail)> {
+        let ports = [0u16, 1, 65535];
+        let mut idx = 0usize;
+        for a6 in SPECIAL_V6 {
+            for b6 in SPECIAL_V6 {
+                for (ai, a4) in SPECIAL_V4.iter().enumerate() {
+                    for sp in ports {
+                        for dp in ports {
+                            for sk in 0..3u32 {
+                                idx += 1;
+                                if idx % nshards != shard {
+                                    continue;
+                                }
+                                let b4 = SPECIAL_V4[(ai + idx) % SPECIAL_V4.len()];
+                                let scope = match sk {
+                                    0 => [0, 0],
+                                    1 => [a6[1] as u32, b6[1] as u32],
+                                    _ => [a6[7] as u32, 7],
+                                };
+                                let c = Case { a4: *a4, b4: if idx % 4 == 0 { *a4 } else { b4 }, a6, b6, sp, dp, flow: [0, idx as u32], scope, unix_seed: [(idx % 5) as u32, ((idx / 5) % 5) as u32] };
+                                if let Err(f) = judge(&c, st) {
+                                    return Some((c, f));
+                                }
+                            }
+                        }
+                    }
+                }
+            }
+        }
+        None
+    };
+    r.bulk("c19.specials", Some("12 x 12 special IPv6 addresses x 7 special IPv4 addresses x ports {0,1,65535}^2 x 3 scope-id choices (0, second group, last group)"), &work, &judge);
     "exploration"
 }
